@@ -13,7 +13,7 @@ from typing import List, Optional
 
 from ..ast import MolAst, StochAst, TokenAst
 from .compat import compat
-from .token import read_token
+from .token import merged, read_token
 
 
 class Stuck(Exception):
@@ -89,7 +89,7 @@ def _cdesc(d, atom, idx):
 
 
 def _ctok(text, kind, elem, tidx, extra_weights=None):
-    r = read_token(text)
+    r = merged(read_token(text))  # generation-side oracles use the chemical reading (explicit H in a multi-atom token = H count of its neighbour)
     from ..ast import Desc
 
     descs = []
